@@ -179,6 +179,8 @@ type SCase struct {
 	DimX int        `json:"dim_x"`
 	DimY int        `json:"dim_y"`
 	Dst  [8]float64 `json:"dst"` // image-space quadrilateral the grid [0,DimX]x[0,DimY] maps to
+	// Src, when set, is the grid-side quadrilateral that maps to Dst (default: the grid rectangle's corners)
+	Src *[8]float64 `json:"src,omitempty"`
 }
 
 func makeImage(c SCase) *gozxing.BitMatrix {
@@ -231,10 +233,13 @@ func checkSample(raw json.RawMessage) error {
 	img := makeImage(c)
 	dx, dy := float64(c.DimX), float64(c.DimY)
 	src := [8]float64{0, 0, dx, 0, dx, dy, 0, dy}
+	if c.Src != nil {
+		src = *c.Src
+	}
 	bits, err := common.GridSampler_GetInstance().SampleGrid(img, c.DimX, c.DimY,
-		0, 0, dx, 0, dx, dy, 0, dy,
+		src[0], src[1], src[2], src[3], src[4], src[5], src[6], src[7],
 		c.Dst[0], c.Dst[1], c.Dst[2], c.Dst[3], c.Dst[4], c.Dst[5], c.Dst[6], c.Dst[7])
-	desc := fmt.Sprintf("grid %dx%d -> %v in a %dx%d %s image", c.DimX, c.DimY, c.Dst, c.ImgW, c.ImgH, c.Img)
+	desc := fmt.Sprintf("grid %dx%d, grid-side points %v -> %v in a %dx%d %s image", c.DimX, c.DimY, src, c.Dst, c.ImgW, c.ImgH, c.Img)
 	if err != nil && !isNotFound(err) {
 		return fmt.Errorf("error is not a NotFoundException: %v [%s]", err, desc)
 	}
@@ -522,8 +527,70 @@ func TestCheck(t *testing.T) {
 			default:
 				cs.Img = fmt.Sprintf("noise:%d", rapid.Uint64().Draw(t, "seed"))
 			}
-			raw, _ := json.Marshal(cs)
 			cl := "transform=" + kind
+			dx, dy := float64(cs.DimX), float64(cs.DimY)
+			rect := [8]float64{0, 0, dx, 0, dx, dy, 0, dy}
+			switch rapid.IntRange(0, 5).Draw(t, "gridside") {
+			case 0:
+				// the same four correspondences listed from another corner / in the other direction
+				r := rapid.IntRange(1, 3).Draw(t, "rot")
+				rev := rapid.Bool().Draw(t, "rev")
+				var s2, d2 [8]float64
+				for i := 0; i < 4; i++ {
+					j := (i + r) % 4
+					if rev {
+						j = (4 - i + r) % 4
+					}
+					s2[2*i], s2[2*i+1] = rect[2*j], rect[2*j+1]
+					d2[2*i], d2[2*i+1] = cs.Dst[2*j], cs.Dst[2*j+1]
+				}
+				cs.Src, cs.Dst = &s2, d2
+				cl += ";grid_side=relisted"
+			case 1:
+				// a general convex quadrilateral inside the grid as the grid-side reference
+				q, k2 := genQuad(t, "gs", dx/2, dy/2, 0.9*math.Min(dx, dy))
+				cs.Src = &q
+				cl += ";grid_side=" + k2
+			}
+			if cs.Img == "black" && rapid.IntRange(0, 2).Draw(t, "twist") == 0 {
+				// a twisted (self-intersecting) image-side quadrilateral, as a misdetected symbol gives:
+				// whatever comes back must still be made of image pixels only
+				i, j := 0, 1
+				if rapid.Bool().Draw(t, "twistpair") {
+					i, j = 1, 2
+				}
+				cs.Dst[2*i], cs.Dst[2*j] = cs.Dst[2*j], cs.Dst[2*i]
+				cs.Dst[2*i+1], cs.Dst[2*j+1] = cs.Dst[2*j+1], cs.Dst[2*i+1]
+				cl += ";twisted"
+				if rapid.Bool().Draw(t, "crop") {
+					// crop the image so that the farthest sample point lies within one pixel beyond
+					// the right or bottom edge (a row's interior points can be there while its ends are inside)
+					src := rect
+					if cs.Src != nil {
+						src = *cs.Src
+					}
+					if co, ok := solveProjective(src, cs.Dst); ok {
+						maxX, maxY := 0.0, 0.0
+						for y := 0; y < cs.DimY; y++ {
+							for x := 0; x < cs.DimX; x++ {
+								if u, v, ok := evalF(co, float64(x)+0.5, float64(y)+0.5); ok {
+									maxX, maxY = math.Max(maxX, u), math.Max(maxY, v)
+								}
+							}
+						}
+						if rapid.Bool().Draw(t, "cropx") {
+							if maxX >= 5 && maxX < 400 {
+								cs.ImgW = int(maxX)
+								cl += ";cropped_to_excursion"
+							}
+						} else if maxY >= 5 && maxY < 400 {
+							cs.ImgH = int(maxY)
+							cl += ";cropped_to_excursion"
+						}
+					}
+				}
+			}
+			raw, _ := json.Marshal(cs)
 			if cs.Img == "black" {
 				cl += ";all_black"
 			}
